@@ -23,7 +23,7 @@ import (
 
 const c19Base = "data/persist"
 
-var c19DBs = []int{0, 1, 2}
+var c19DBs = []int{0, 1, 2, 15}
 
 func init() {
 	genLists["C19"] = c19Cases
@@ -119,7 +119,7 @@ func c19Fixtures() [][]Op {
 	return [][]Op{
 		fixtureOps(""),
 		fixtureOps("100000"),
-		append(fixtureOps(""), c("SELECT", "1"), c("SET", "ks", "one"), c("RPUSH", "kl", "a", "b"), c("HSET", "kh", "f", "1"), c("SADD", "kz", "m"), c("SELECT", "0")),
+		append(fixtureOps(""), c("SELECT", "1"), c("SET", "ks", "one"), c("RPUSH", "kl", "a", "b"), c("HSET", "kh", "f", "1"), c("SADD", "kz", "m"), c("SELECT", "15"), c("SET", "ks", "fifteen"), c("RPUSH", "kl", "z"), c("SELECT", "0")),
 		{},
 	}
 }
